@@ -28,6 +28,10 @@
                          per row (fixed by fixes/control/20, fixes/dropped/03)
                 nullarr  a VALID all-NULL int4[] of 2 M elements in 256 KiB: 16 bytes of result per bit, inherent
                 deepjson 32 768 levels of JSONB nesting in 256 KiB (stack depth; the 16 MiB overflow is outside the quantifier)
+                export   ToSQL of ONE cell holding d nested JSON objects (case 14, column jsonb) / d nested arrays (case 15,
+                         column int4[]), d = 8000: the text is 6 / 7 bytes per level; before fixes entry/05, 06 every level was
+                         built as a string of its own and copied into the next one (210 MB / 243 MB allocated for 48 KB / 56 KB
+                         of output); the handler allows 64 B per byte of SQL text + 4 MiB (measured after the fixes: 1.9 MB)
 -/
 import Driver.Fam.Entry
 import Driver.Fam.Index
@@ -236,7 +240,7 @@ def aliasModel (file : Bytes) : String :=
   | .ok es => if totalTupleBytes es > file.length then s!"amplified:{es.length}" else "ok"
   | .error e => faultStr e
 
-def nResource : Nat := 14
+def nResource : Nat := 16
 
 /-- case `i` (built on demand: some of them take seconds to build) -/
 def resourceCase (i : Nat) : List String × List String :=
@@ -255,6 +259,8 @@ def resourceCase (i : Nat) : List String × List String :=
   | 10 => (["nt"], ["dropscan", hexRle (repeatTo 16384 (dbAliasPage 2019))])
   | 11 => (["nt"], ["decode", "3802", hexRle (deepJsonb 32768)])
   | 12 => (["nt"], ["decode", "1007", hexRle (nullArray ())])
+  | 14 => (["nt", "resource:export"], ["export", "nestmap", "8000"])
+  | 15 => (["nt", "resource:export"], ["export", "nestarr", "8000"])
   | _ => (["nt"], ["reasm", "zbombmax", hexRle (extPtr 0xFFFFFFFF 0 1 0), hexRle (zbombStream ())])
 
 def resourceEval (args : List String) : String :=
